@@ -32,7 +32,7 @@ RULE = ("cases: package configurations; executions: one call per (chunk size, wi
         "(configuration, window, chunk) whose window holds at least one wavelength and whose chunk size is smaller than the number of wavelengths in the window or divides it")
 ASSUMPTIONS = ["all SED files of a package share one wavelength grid", "window ends exactly on a tabulated wavelength are ambiguous"]
 REQUIRED_CLASSES = ['chunk-divides-range', 'chunk-does-not-divide-range', 'chunk==1', 'single-wavelength-window', 'empty-window', 'default-window', 'window-end-on-wavelength',
-                    'permuted-parameter-table', 'multi-aperture', 'sed-files-wav-ascending', 'cube-nearest', 'cube-midway', 'cube-outside']
+                    'permuted-parameter-table', 'multi-aperture', 'sed-files-wav-ascending', 'cube-nearest', 'cube-midway', 'cube-outside', 'cube-wavelength-in-other-unit']
 TIMEOUT = {'quick': 600, 'thorough': 3000}
 
 
@@ -240,10 +240,12 @@ def _cube(ctx, case, rec, d):
     pkgwriter.write_conf(md, n_ap > 1, version=2)
     pkgwriter.write_parameters(md, names, {'par1': [1.0, 2.0, 3.0]})
     pkgwriter.write_cube(md, names, wav[::order], val[:, :, ::order], unc=val[:, :, ::order] / 8.0, apertures_au=ap)
-    for req in [0.5, 1.0, 1.4, 1.6, 2.0, 2.9, 3.0, 3.1, 4.0, 7.9, 11.9, 12.1, 16.0, 40.0]:
-        sub = {'requested_micron': req}
+    for req, unit in [(r, un) for r in [0.5, 1.0, 1.4, 1.6, 2.0, 2.9, 3.0, 3.1, 4.0, 7.9, 11.9, 12.1, 16.0, 40.0] for un in ('micron', 'nm', 'mm')]:
+        sub = {'requested_micron': req, 'given_in': unit}
+        if unit != 'micron':
+            rec.cls('cube-wavelength-in-other-unit')
         try:
-            m = Models.read(md, [{'aperture_arcsec': 1.0, 'wav': req * u.micron}], distance_range=np.array([1.0, 1.0]) * u.kpc, use_memmap=case['memmap'])
+            m = Models.read(md, [{'aperture_arcsec': 1.0, 'wav': (req * u.micron).to(u.Unit(unit))}], distance_range=np.array([1.0, 1.0]) * u.kpc, use_memmap=case['memmap'])
         except Exception as e:
             from mc.runner import exc_signature
             rec.ev()
@@ -251,7 +253,7 @@ def _cube(ctx, case, rec, d):
             continue
         rec.ev()
         rec.trans()
-        key = ('cube', case['sord'], n_ap, case['memmap'], req)
+        key = ('cube', case['sord'], n_ap, case['memmap'], req, unit)
         rec.state(key)
         rec.nontriv(key)
         dist = np.abs(wav - req)
@@ -274,6 +276,6 @@ def _cube(ctx, case, rec, d):
             rec.violation('cube-slice|wrong-wavelength', sub, {'got': got, 'expected_one_of': cands, 'tabulated': wav, 'stored_order': case['sord']})
         if [str(x).strip() for x in m.names] != names:
             rec.violation('cube-slice|names', sub, {'names': list(m.names)})
-        if abs(m.wavelengths[0].to(u.micron).value - req) > 1e-12 * req:
+        if abs(m.wavelengths[0].to(u.micron).value - req) > 1e-9 * req:
             rec.violation('cube-slice|wavelength-attribute', sub, {'got': str(m.wavelengths[0])})
     rec.trace()
